@@ -9,6 +9,7 @@
     X(unsigned char, pv_ok, [VF_NCALL]) X(unsigned char, pv_len, [VF_NCALL]) X(unsigned char, pv_kind, [VF_NCALL]) \
     X(unsigned char, ps_ok, [VF_NCALL]) X(unsigned char, ps_len, [VF_NCALL])
 #include "vf.h"
+#include "vf_str.h"
 #ifndef VF_LIB
 #define VF_LIB "cJSON.c"
 #endif
